@@ -355,7 +355,12 @@ fn ranges_text(ranges: &[(u32, u32, u32)]) -> String {
 
 impl Sim {
     pub fn new(seed: u64) -> Sim {
-        let world = World::new(&WorldConfig { prefill_reserve: 1, prefill_max: 1, journal: false });
+        Sim::new_cfg(seed, false)
+    }
+
+    /// `journal`: the real `EventStreamer` is given a journal sink (see `World::journal`)
+    pub fn new_cfg(seed: u64, journal: bool) -> Sim {
+        let world = World::new(&WorldConfig { prefill_reserve: 1, prefill_max: 1, journal });
         let mut rng = Rng::new(seed);
         let profile = rng.below(5);
         Sim {
